@@ -1418,7 +1418,11 @@ def run(ctx):
         "with its original mtime; dangling import / cycle / both with 'failed load, unrelated theory, broken theory, load_metadata'; "
         "dangling import and cycle introduced by edits; loads interrupted at items of an import / the theory / the root; duplicate "
         "constant; limits (present, first, last, start, missing, foreign); os.utime forwards / backwards / unchanged; imports edited "
-        "with and without load_metadata. EVERY load of a synthetic scenario is compared with its own fresh process (files as they "
+        "with and without load_metadata; the SAME LIMITED LOAD repeated around edits that insert / delete / move items in front of "
+        "the limit, change only what is behind it, move / delete / rename the limit item and put it back; two limits of one theory "
+        "and limit='start'/None alternating around edits; limited loads at the top with edits in direct and indirect imports; a "
+        "second user's library with the same theory names, limited loads of both users interleaved with edits of either (oracles "
+        "(a) and (c) only: the model has one user). EVERY load of a synthetic scenario is compared with its own fresh process (files as they "
         "are at that step), with the reference loader and with the Lean model (outcome, files parsed, theory items). "
         "RANDOM REMAINDER: a case is one scripted history ending in load_theory(name, limit), run in its own Python process and compared with a "
         "fresh process doing only the final load and with the Lean model: real library (prior loads with limits, imports of "
@@ -1496,6 +1500,10 @@ MANIFEST = {
             "indirect_edit_older_mtime_example); these are judged by the deterministic battery of scripted histories. "
             "FUEL: every theorem admits the outcome 'the model ran out of fuel'; no theorem says that some amount of fuel "
             "suffices (the model's termination is not proved); every run confirms on its own histories that fuel 400 sufficed. "
+            "FAILING-INPUT SEARCH: when the model correspondence breaks on a synthetic history on which no oracle objected, an "
+            "amplified history (every earlier load repeated after every change, the loaded theories replaced by their other "
+            "versions in turn) is run with every load judged against its own fresh process. What theory.thy holds AFTER an "
+            "exception is not compared. "
             "Tables (import graph, lazy imports, module -> load_theory calls) are regenerated from the sources each run and "
             "checked. Tie to logic/basic.py: scripted histories in subprocesses; every load is judged (a) against a fresh "
             "process on the files of that moment, (c) against a reference loader on observable names and exception classes "
